@@ -128,7 +128,76 @@ def vectorising(repo, gj, problems):
     return rows
 
 
+SINK_NAMES = {"eval", "exec", "compile", "print", "input", "open", "__import__", "exit", "quit"}
+SINK_ATTRS = {"urlopen", "literal_eval", "system", "popen", "Popen", "run", "call", "check_output", "exit"}
+
+
+def _sinks_in(tree, where, rows):
+    def guard_of(stack):
+        g = []
+        for node, branch in stack:
+            t = ast.unparse(node.test)
+            if "online" in t:
+                g.append(("not " if branch == "else" else "") + t)
+        return " & ".join(g)
+
+    def visit(node, fn, stack):
+        for field, value in ast.iter_fields(node):
+            kids = value if isinstance(value, list) else [value]
+            for ch in kids:
+                if not isinstance(ch, ast.AST):
+                    continue
+                nfn = ch.name if isinstance(ch, ast.FunctionDef) else fn
+                nstack = stack
+                if isinstance(node, (ast.If, ast.IfExp)):
+                    if field == "body":
+                        nstack = stack + [(node, "then")]
+                    elif field == "orelse":
+                        nstack = stack + [(node, "else")]
+                if isinstance(ch, ast.Call):
+                    f = ch.func
+                    name = None
+                    if isinstance(f, ast.Name) and f.id in SINK_NAMES:
+                        name = f.id
+                    elif isinstance(f, ast.Attribute) and f.attr in SINK_ATTRS:
+                        base = ast.unparse(f.value)
+                        if base.split(".")[0] in ("os", "subprocess", "sys", "urllib", "ast", "request"):
+                            name = base + "." + f.attr
+                    if name:
+                        rows.append((where + (("." + nfn) if nfn else ""), name, guard_of(nstack)))
+                visit(ch, nfn, nstack)
+
+    visit(tree, None, [])
+
+
+def sinks(repo, gj, problems):
+    """every syntactic call of eval / exec / compile / print / input / open / __import__ / exit / urlopen / literal_eval /
+    os.* / subprocess.* in vyxal/*.py and in the element / modifier templates, with the `ctx.online` tests that dominate it"""
+    rows = []
+    for mod in sorted(os.listdir(os.path.join(repo, "vyxal"))):
+        if not mod.endswith(".py") or mod == "dictionary.py":
+            continue
+        tree = ast.parse(open(os.path.join(repo, "vyxal", mod), encoding="utf-8").read())
+        _sinks_in(tree, mod[:-3], rows)
+    for e in gj["elements"] + gj["modifiers"]:
+        try:
+            t = ast.parse(e["code"])
+        except SyntaxError:
+            continue
+        _sinks_in(t, "template:" + e["key"], rows)
+    return rows
+
+
 def generate(repo, files, gj, problems):
+    sk = sinks(repo, gj, problems)
+    files["Sinks.lean"] = "\n".join([
+        "-- GENERATED by tools/extract.py from the repository's current source. Do not edit.",
+        "namespace Gen", "",
+        "/-- every syntactic sink call (eval, exec, compile, print, input, open, __import__, exit, urlopen, literal_eval, os.*,",
+        "    subprocess.*) in vyxal/*.py and in the element templates: (where, sink, dominating `ctx.online` tests) in source order -/",
+        "def sinks : List (String × String × String) := [",
+        ",\n".join("  (%s, %s, %s)" % (P.lstr(a), P.lstr(b), P.lstr(c)) for a, b, c in sk) + "]", "", "end Gen", ""])
+    gj["sinks"] = [list(x) for x in sk]
     vs = vectorising(repo, gj, problems)
     files["Vectorising.lean"] = "\n".join([
         "-- GENERATED by tools/extract.py from the repository's current source. Do not edit.",
